@@ -164,7 +164,13 @@ func (logicFamily) Exec(c *hc.Case) {
 	}
 	var opener circuit.ClosedToOpen
 	if p.Opener == "hystrix" {
-		opener = hystrix.OpenerFactory(hystrix.ConfigureOpener{ErrorThresholdPercentage: p.Pct, RequestVolumeThreshold: p.Vol, Now: func() time.Time { return start },
+		// the opener's own clock moves between two readings (half a bucket each): its two windows start at ONE reading
+		reads := 0
+		openerNow := func() time.Time {
+			reads++
+			return start.Add(time.Duration(int64(reads-1) * (p.Dur / int64(2*p.N))))
+		}
+		opener = hystrix.OpenerFactory(hystrix.ConfigureOpener{ErrorThresholdPercentage: p.Pct, RequestVolumeThreshold: p.Vol, Now: openerNow,
 			RollingDuration: time.Duration(p.Dur), NumBuckets: p.N})()
 		eff := opener.(*hystrix.Opener).Config()
 		p.Pct, p.Vol, p.Dur, p.N = eff.ErrorThresholdPercentage, eff.RequestVolumeThreshold, int64(eff.RollingDuration), eff.NumBuckets
